@@ -255,7 +255,7 @@ func (na *nilAnalysis) exprMayNil(fn *Func, e ast.Expr, st *State, depth int) st
 	switch x := e.(type) {
 	case *ast.Ident:
 		if st != nil {
-			if d := st.Env.get(p.ObjOf(x)); d != nil && d.Rhs != nil && d.Kind == DefAssign && d.Idx <= 0 {
+			if d := st.Env.get(p.ObjOf(x)); d != nil && d.Rhs != nil && d.Kind == DefAssign && d.Idx <= 0 && !d.Param {
 				return na.exprMayNil(fn, d.Rhs, &State{Env: d.Env}, depth+1)
 			}
 		}
@@ -399,7 +399,7 @@ func (na *nilAnalysis) Sites(inScope func(fn *Func) bool) []nilSite {
 				return true
 			}
 			d := st.Env.get(v)
-			if d == nil || d.Rhs == nil {
+			if d == nil || d.Rhs == nil || d.Param {
 				return true // parameter, range variable or merged definition: not a tracked source
 			}
 			if d.Kind != DefAssign || d.Idx > 0 {
